@@ -3,6 +3,7 @@ package filesys
 import (
 	"fmt"
 	"path"
+	"sync"
 
 	"github.com/pkg/errors"
 	"golang.org/x/sys/unix"
@@ -83,7 +84,14 @@ func (fs DirFs) Delete(dir, fname string) {
 	}
 }
 
+// atomicCreateLock serializes AtomicCreate: concurrent calls for the same name
+// would share the temporary file, mixing their data and leaving one of them
+// with nothing to rename.
+var atomicCreateLock sync.Mutex
+
 func (fs DirFs) AtomicCreate(dir, fname string, data []byte) {
+	atomicCreateLock.Lock()
+	defer atomicCreateLock.Unlock()
 	tmpFile := path.Join(dir, fname+".tmp")
 	fd, err := unix.Openat(fs.rootFd, tmpFile,
 		unix.O_CREAT|unix.O_TRUNC|unix.O_WRONLY, 0644)
